@@ -545,6 +545,7 @@ func (a *factAnalysis) importLiteralExit(st *fstate, call *ast.CallExpr, idx int
 		fsr := g.localFactsAt(r)
 		match := true
 		var extra *Fact
+		var condFacts []*Fact
 		var bound *bnd
 		if v := g.varOf(res); v != nil {
 			if b, ok := fsr.bind[v]; ok {
@@ -591,6 +592,19 @@ func (a *factAnalysis) importLiteralExit(st *fstate, call *ast.CallExpr, idx int
 					match = !knows(FTrue)
 					extra = &Fact{Kind: FFalse, Call: bound.call, Idx: bound.idx}
 				}
+			} else if g.varOf(res) == nil {
+				// `return a && b`: the result is the value of the expression, so what
+				// its being true (false) implies holds for the caller as well
+				ga := g.facts()
+				tmp := &fstate{facts: map[string]*Fact{}, bind: fsr.bind}
+				var atoms []atom
+				collectAtoms(res, want == "true", &atoms)
+				for _, at := range atoms {
+					ga.addAtomFacts(tmp, at, res)
+				}
+				for _, fa := range tmp.facts {
+					condFacts = append(condFacts, fa)
+				}
 			}
 		}
 		if !match {
@@ -602,6 +616,9 @@ func (a *factAnalysis) importLiteralExit(st *fstate, call *ast.CallExpr, idx int
 			if fa.Inherited || fa.Kind == FHeld {
 				continue
 			}
+			cur[fa.key] = fa
+		}
+		for _, fa := range condFacts {
 			cur[fa.key] = fa
 		}
 		if extra != nil {
@@ -1067,6 +1084,21 @@ func (fs *FactSet) CallNonNil(keys ...string) bool {
 // Cmp: a comparison fact whose (expression, truth) satisfies pred.
 func (fs *FactSet) Cmp(pred func(e ast.Expr, tag ast.Expr, truth bool, fa *Fact) bool) bool {
 	return fs.Has(func(fa *Fact) bool { return fa.Kind == FCmp && pred(fa.Expr, fa.Tag, fa.Truth, fa) })
+}
+
+// Equal reports whether the facts establish x == y for a pair accepted by pred (tried in both
+// orders): an == comparison known true or a != comparison known false.
+func (fs *FactSet) Equal(pred func(x, y ast.Expr) bool) bool {
+	return fs.Cmp(func(e, tag ast.Expr, truth bool, fa *Fact) bool {
+		be, ok := ast.Unparen(e).(*ast.BinaryExpr)
+		if !ok || tag != nil {
+			return false
+		}
+		if !(be.Op == token.EQL && truth || be.Op == token.NEQ && !truth) {
+			return false
+		}
+		return pred(be.X, be.Y) || pred(be.Y, be.X)
+	})
 }
 
 // Held reports whether lock (canonical expression text) is held in at least mode.
